@@ -134,9 +134,16 @@ def _search(parent, ref, node, attr, op, term, inv):
     if isinstance(node, list):
         out = []
         if attr == ".":
+            all_hashes = len(node) > 0 and all(isinstance(e, dict) or e is None for e in node)
             for i, e in enumerate(node):
                 if isinstance(e, (dict, list, set, CommentedSet)):
-                    raise Undefined("'.' search over container members")
+                    # a container member is not equal to any scalar term; in a list that is NOT an Array-of-Hashes the
+                    # key names of a hash member are not what '.' searches (other operators on containers: undefined)
+                    if op != "=" or all_hashes:
+                        raise Undefined("'.' search over container members")
+                    if inv:
+                        out.append((node, i, e))
+                    continue
                 if _m(op, term, e, inv):
                     out.append((node, i, e))
             return out
